@@ -904,6 +904,13 @@ func (e *Engine) builtin(fr *Frame, st *State, ins ssa.Instruction, b *ssa.Built
 		unsupported("len/cap of %T", args[0])
 	case "copy":
 		dst := args[0].(*Term)
+		if s, ok := args[1].(*Term); ok && s.Sort == SSlice && fr.contract != nil && fr.caller == nil && !fr.ghost {
+			for _, cl := range fr.contract.CallsiteRequires["copy"] {
+				g := e.evalClause(fr, st, fr.entry, cl, []Val{dst, s})
+				e.safetyN[e.curFunc+"/callsite/copy"]++
+				e.addObligation(fr, st, "pre", fmt.Sprintf("callsite.copy.%s#%d", cl.Label, e.safetyN[e.curFunc+"/callsite/copy"]), g, cl)
+			}
+		}
 		var n *Term
 		var src func(k *Term) *Term
 		switch s := args[1].(*Term); s.Sort {
